@@ -5,6 +5,11 @@
 (***************************************************************************)
 EXTENDS WktCases, Json, IOUtils
 
+\* TLC orders and compares records field by field in the order in which the field names were first seen while parsing;
+\* naming the discriminating fields here (root module, parsed first) makes every comparison decide on the tag before it
+\* reaches a payload whose sort depends on the tag.
+FieldOrder == [op |-> 0, g |-> 0, k |-> 0, t |-> 0, c |-> 0, ok |-> 0, x |-> 0, v |-> 0, p |-> 0, d |-> 0, r |-> 0, j |-> 0, m |-> 0]
+
 Trace == ndJsonDeserialize(IOEnv.TRACE)
 
 VARIABLES l, bad
